@@ -1,6 +1,7 @@
 package main
 
 import (
+	"go/types"
 	"strings"
 
 	"golang.org/x/tools/go/ssa"
@@ -98,7 +99,171 @@ func runC16(r *Run) {
 	bd.Instance("closure scanned", false, nil)
 	bd.Done()
 
+	sh := r.Rule("C16.shared", "the closure of ParseURI reads package-level variables only if nothing outside the package initialiser changes them: every call is independent of every other, whatever runs concurrently", 1)
+	checkSharedState(r, sh, cl)
+	sh.Done()
+
 	np := r.Rule("C16.nopanic", "no explicit panic, unchecked type assertion, channel operation or unknown external call in the closure", 1)
 	checkNoPanic(r, np, cl, nil)
 	np.Done()
+}
+
+// globalWriters: for every package-level variable of the module, the instructions outside the package
+// initialisers that may change it (stores, map updates/deletes of the loaded map, and any use of its
+// address other than a plain load).
+func (p *Prog) globalWriters() map[*ssa.Global][]ssa.Instruction {
+	if p.globWriters != nil {
+		return p.globWriters
+	}
+	out := map[*ssa.Global][]ssa.Instruction{}
+	p.globWriters = out
+	for _, fn := range p.LibFuncs() {
+		if fn.Name() == "init" && fn.Parent() == nil {
+			continue
+		}
+		eachInstr(fn, func(b *ssa.BasicBlock, i int, in ssa.Instruction) {
+			for _, op := range in.Operands(nil) {
+				g, ok := (*op).(*ssa.Global)
+				if !ok || g.Pkg == nil || !p.isLibPkg(g.Pkg.Pkg) {
+					continue
+				}
+				switch x := in.(type) {
+				case *ssa.UnOp:
+					// a load; a loaded map or slice can still be written through
+					if refs := x.Referrers(); refs != nil {
+						for _, u := range *refs {
+							switch y := u.(type) {
+							case *ssa.MapUpdate:
+								if y.Map == ssa.Value(x) {
+									out[g] = append(out[g], u)
+								}
+							case *ssa.Call:
+								if isBuiltinCall(y, "delete") && y.Call.Args[0] == ssa.Value(x) {
+									out[g] = append(out[g], u)
+								}
+							case *ssa.IndexAddr:
+								if y.X == ssa.Value(x) {
+									for _, u2 := range *y.Referrers() {
+										if st, isS := u2.(*ssa.Store); isS && st.Addr == ssa.Value(y) {
+											out[g] = append(out[g], u2)
+										}
+									}
+								}
+							}
+						}
+					}
+				case *ssa.DebugRef:
+				default:
+					out[g] = append(out[g], in)
+				}
+			}
+		})
+	}
+	return out
+}
+
+func checkSharedState(r *Run, rc *RuleCtx, cl []*ssa.Function) {
+	p := r.P
+	wr := p.globalWriters()
+	isMutex := func(g *ssa.Global) bool {
+		t := g.Type().(*types.Pointer).Elem()
+		if n, ok := t.(*types.Named); ok && n.Obj().Pkg() != nil && n.Obj().Pkg().Path() == "sync" {
+			return n.Obj().Name() == "Mutex" || n.Obj().Name() == "RWMutex"
+		}
+		return false
+	}
+	// every access of a variable in the module (outside the initialiser), with the global mutexes held there
+	type access struct {
+		in    ssa.Instruction
+		write bool
+	}
+	accesses := map[*ssa.Global][]access{}
+	locks := map[*ssa.Function]*LockInfo{}
+	for _, fn := range p.LibFuncs() {
+		if fn.Name() == "init" && fn.Parent() == nil {
+			continue
+		}
+		eachInstr(fn, func(b *ssa.BasicBlock, i int, in ssa.Instruction) {
+			for _, op := range in.Operands(nil) {
+				if g, ok := (*op).(*ssa.Global); ok && g.Pkg != nil && p.isLibPkg(g.Pkg.Pkg) && len(wr[g]) > 0 && !isMutex(g) {
+					_, isLoad := in.(*ssa.UnOp)
+					accesses[g] = append(accesses[g], access{in, !isLoad})
+				}
+			}
+		})
+	}
+	for g, ws := range wr {
+		for _, w := range ws {
+			accesses[g] = append(accesses[g], access{w, true})
+		}
+	}
+	heldAt := func(in ssa.Instruction) map[string]string {
+		fn := in.Parent()
+		li := locks[fn]
+		if li == nil {
+			li = computeLocks(fn)
+			locks[fn] = li
+		}
+		return li.Held(in)
+	}
+	// guardedBy: a package-level mutex held (exclusively for writes) at every access of g; "" if none
+	guardedBy := func(g *ssa.Global) (string, ssa.Instruction) {
+		var common map[string]bool
+		var firstBare ssa.Instruction
+		for _, a := range accesses[g] {
+			h := heldAt(a.in)
+			cur := map[string]bool{}
+			for obj, mode := range h {
+				if a.write && mode != "W" {
+					continue
+				}
+				if m, ok := p.Stun.Members[obj].(*ssa.Global); ok && isMutex(m) {
+					cur[obj] = true
+				} else if a.in.Parent().Pkg != nil {
+					if m, ok := a.in.Parent().Pkg.Members[obj].(*ssa.Global); ok && isMutex(m) {
+						cur[obj] = true
+					}
+				}
+			}
+			if len(cur) == 0 && firstBare == nil {
+				firstBare = a.in
+			}
+			if common == nil {
+				common = cur
+			} else {
+				for k := range common {
+					if !cur[k] {
+						delete(common, k)
+					}
+				}
+			}
+		}
+		for k := range common {
+			return k, nil
+		}
+		return "", firstBare
+	}
+	for _, f := range cl {
+		eachInstr(f, func(b *ssa.BasicBlock, i int, in ssa.Instruction) {
+			for _, op := range in.Operands(nil) {
+				g, ok := (*op).(*ssa.Global)
+				if !ok || g.Pkg == nil || !p.isLibPkg(g.Pkg.Pkg) || isMutex(g) {
+					continue
+				}
+				rc.Instance(fnName(f)+"|"+g.Name(), true, map[string]string{"fn": fnName(f), "variable": g.Name()})
+				ws := wr[g]
+				if len(ws) == 0 {
+					continue
+				}
+				if mu, bare := guardedBy(g); mu == "" {
+					w := ws[0]
+					where := ""
+					if bare != nil {
+						where = "; accessed without a package-level mutex at " + p.pos(instrPos(bare))
+					}
+					rc.Violation(f, instrPos(in), "shared variable "+g.Name(), "the parser uses a package-level variable that is changed at run time ("+shortInstr(w)+" in "+fnName(w.Parent())+", "+p.pos(instrPos(w))+") and no single mutex is held at all of its accesses"+where+": concurrent callers can corrupt it or crash the process (a map written while read is a fatal error)")
+				}
+			}
+		})
+	}
 }
